@@ -9,6 +9,7 @@
 #include <lzma.h>
 #include <stdatomic.h>
 #include <stdlib.h>
+#include <string.h>
 #if defined(__has_feature)
 #  if __has_feature(address_sanitizer)
 #    define HA_ASAN 1
@@ -47,6 +48,9 @@ static void *ha_alloc(void *o, size_t n, size_t sz) {
 		void *p = atomic_exchange_explicit(&ha_cache[i].p, NULL, memory_order_relaxed);
 		if (p) { h = p; __asan_unpoison_memory_region(h + 1, t); HA_NEW_MEMORY(h + 1, t); break; } }
 	if (!h) { h = malloc(sizeof *h + (t ? t : 1)); if (!h) return NULL; h->size = t; }
+	// every block, fresh or recycled, starts with the same contents: an execution must be a function of (input, schedule) only, also when the code
+	// under test reads memory it never wrote (without this such a read shows up as NONDETERMINISM under the TSan build, whose malloc does not fill)
+	memset(h + 1, 0xA5, t);
 	atomic_fetch_add_explicit(&a_live, 1, memory_order_relaxed); atomic_fetch_add_explicit(&a_allocs, 1, memory_order_relaxed);
 	return h + 1;
 }
